@@ -12,6 +12,7 @@ mod feature_replay;
 mod geom_replay;
 mod kalman_replay;
 mod nms_replay;
+mod r2_record;
 mod store_replay;
 mod track_replay;
 mod tracker_replay;
@@ -32,6 +33,7 @@ fn main() {
         ("replay", "tracker") => tracker_replay::main(&opts),
         ("replay", "conc") => conc_replay::main(&opts),
         ("record", "batch") => batch_record::main(&opts),
+        ("record", "r2") => r2_record::main(&opts),
         ("record", "conc") => conc_replay::record(&opts),
         ("replay", "geom") => geom_replay::main(&opts),
         ("replay", "nms") => nms_replay::main(&opts),
